@@ -8,7 +8,11 @@ import GorumsV.Model.Chan
        bounded by what is outstanding.
   C03: the order in which requests are written to the stream respects the order in which the
        hand-offs completed.
-  C07: when the stream goes down every pending request is answered with an error.
+  C07: when the stream goes down every pending request is answered with an error; a request
+       (streaming or not) is answered with at most one error, and nothing after it: a failing
+       node is reported once (the repair of defect D18: a streaming router used to survive an
+       error, so that a node whose handler failed and whose connection then broke was reported
+       twice and counted as two failed nodes).
 -/
 namespace GorumsV.C05
 open GorumsV.Chan
@@ -32,6 +36,10 @@ structure Inv (s : State) : Prop where
   sentSub : s.sent.Sublist s.popped
   /-- (strengthening) the request the sender holds is the last one popped and was not yet written -/
   heldLast : ∀ id, s.held = some id → ∃ pre, s.popped = pre ++ [id] ∧ s.sent.Sublist pre
+  /-- (D18) a request that has been answered with an error keeps no router, streaming or not -/
+  noRouterAfterErr : ∀ d ∈ s.deliveries, d.resp.isErr = true → hasRouter s d.id = false
+  /-- (D18) whatever was delivered for an id before its last delivery is not an error -/
+  errLast : ∀ id, ∀ d ∈ (deliveriesOf s id).dropLast, d.resp.isErr = false
 
 
 /-! ### helpers -/
@@ -74,6 +82,51 @@ theorem filter_id_length_le_one (l : List Router) (id : MsgId) (hn : (l.map (·.
     · have := ih hn.2
       simpa [List.filter_cons, ha] using this
 
+/-- a sub-table has no router where the table has none -/
+theorem hasRouter_mono (s s' : State) (hsub : s'.routers.Sublist s.routers) (id : MsgId)
+    (h : hasRouter s id = false) : hasRouter s' id = false := by
+  cases hr : hasRouter s' id with
+  | false => rfl
+  | true =>
+    rw [hasRouter_iff] at hr
+    obtain ⟨y, hy, hyid⟩ := hr
+    have : hasRouter s id = true := (hasRouter_iff s id).2 ⟨y, hsub.subset hy, hyid⟩
+    rw [h] at this; cases this
+
+/-- while a router for `id` exists no error has been delivered for `id` -/
+theorem noErr_of_hasRouter {s : State}
+    (h : ∀ d ∈ s.deliveries, d.resp.isErr = true → hasRouter s d.id = false)
+    (id : MsgId) (hr : hasRouter s id = true) : ∀ d ∈ deliveriesOf s id, d.resp.isErr = false := by
+  intro d hd
+  obtain ⟨hd1, hd2⟩ := List.mem_filter.1 hd
+  have hid : d.id = id := by simpa using hd2
+  cases he : d.resp.isErr with
+  | false => rfl
+  | true =>
+    have := h d hd1 he
+    rw [hid, hr] at this; cases this
+
+theorem hasRouter_false_of (s : State) (id : MsgId) (h : ∀ y ∈ s.routers, y.id ≠ id) : hasRouter s id = false := by
+  cases hr : hasRouter s id with
+  | false => rfl
+  | true =>
+    rw [hasRouter_iff] at hr
+    obtain ⟨y, hy, hyid⟩ := hr
+    exact absurd hyid (h y hy)
+
+theorem deliveriesOf_cancelAll (s : State) (id : MsgId) :
+    deliveriesOf (cancelAll s) id
+      = deliveriesOf s id ++ (s.routers.filter (fun x => x.id == id)).map (fun x => (⟨x.id, x.call, .err 0⟩ : Delivery)) := by
+  simp only [cancelAll, deliveriesOf, List.filter_append, List.filter_map]
+  rfl
+
+theorem filter_id_nil_of_noRouter (s : State) (id : MsgId) (hr : hasRouter s id = false) :
+    s.routers.filter (fun x => x.id == id) = [] := by
+  rw [List.filter_eq_nil_iff]
+  intro x hx hxid
+  have : hasRouter s id = true := (hasRouter_iff s id).2 ⟨x, hx, by simpa using hxid⟩
+  rw [hr] at this; cases this
+
 theorem route_noRouter (s : State) (id : MsgId) (r : Resp) (h : hasRouter s id = false) : route s id r = s := by
   unfold route; rw [find_none_of_noRouter s id h]
 
@@ -89,16 +142,29 @@ theorem inv_route (s : State) (id : MsgId) (r : Resp) (h : Inv s) : Inv (route s
   cases hf : s.routers.find? (fun x => x.id == id) with
   | none => exact h
   | some x =>
+    dsimp only
     have hx : x ∈ s.routers := List.mem_of_find?_eq_some hf
     have hxid : x.id = id := by have := List.find?_some hf; simpa using this
     have hreg := h.routerRegistered x hx
-    have hsub : List.Sublist (if x.streaming then s.routers else s.routers.filter (fun y => y.id != id)) s.routers := by
+    have hhas : hasRouter s id = true := (hasRouter_iff s id).2 ⟨x, hx, hxid⟩
+    have hsub : List.Sublist (if (x.streaming && !r.isErr) = true then s.routers else s.routers.filter (fun y => y.id != id)) s.routers := by
       split
       · exact List.Sublist.refl _
       · exact List.filter_sublist
+    -- deliveries of the other ids are unchanged; the routed id gets one more
+    have hdne : ∀ id', id' ≠ id → ∀ R, deliveriesOf { s with deliveries := s.deliveries ++ [⟨id, x.call, r⟩], routers := R } id'
+        = deliveriesOf s id' := by
+      intro id' hid R
+      have : ¬ id = id' := fun e => hid e.symm
+      simp [deliveriesOf, List.filter_append, this]
+    have hdeq : ∀ R, deliveriesOf { s with deliveries := s.deliveries ++ [⟨id, x.call, r⟩], routers := R } id
+        = deliveriesOf s id ++ [⟨id, x.call, r⟩] := by
+      intro R
+      simp [deliveriesOf, List.filter_append]
     refine { routerRegistered := ?_, registeredNodup := h.registeredNodup, routersNodup := ?_,
              deliveredToRegistrant := ?_, nonStreaming := ?_, queue := h.queue,
-             pushedNodup := h.pushedNodup, sentSub := h.sentSub, heldLast := h.heldLast }
+             pushedNodup := h.pushedNodup, sentSub := h.sentSub, heldLast := h.heldLast,
+             noRouterAfterErr := ?_, errLast := ?_ }
     · intro y hy
       exact h.routerRegistered y (hsub.subset hy)
     · exact (hsub.map _).nodup h.routersNodup
@@ -116,8 +182,7 @@ theorem inv_route (s : State) (id : MsgId) (r : Resp) (h : Inv s) : Inv (route s
         have hst : x.streaming = false := by
           rw [hxid] at hreg
           exact (reg_unique h.registeredNodup hreg hc).2
-        have hnil : deliveriesOf s id' = [] := hold.1 ((hasRouter_iff s id').2 ⟨x, hx, hxid⟩)
-        have hnil' : s.deliveries.filter (fun d => d.id == id') = [] := hnil
+        have hnil : deliveriesOf s id' = [] := hold.1 hhas
         constructor
         · intro hr
           rw [hasRouter_iff] at hr
@@ -126,70 +191,157 @@ theorem inv_route (s : State) (id : MsgId) (r : Resp) (h : Inv s) : Inv (route s
           rw [hst] at hy
           simp at hy
           exact absurd hyid hy.2
-        · simp [deliveriesOf, List.filter_append, hnil']
-      · have hd : deliveriesOf { s with deliveries := s.deliveries ++ [⟨id, x.call, r⟩], routers := if x.streaming then s.routers else s.routers.filter (fun y => y.id != id) } id'
-              = deliveriesOf s id' := by
-          have : ¬ id = id' := fun e => hid e.symm
-          simp [deliveriesOf, List.filter_append, this]
-        rw [hd]
+        · rw [hdeq, hnil]; simp
+      · rw [hdne id' hid]
         refine ⟨fun hr => hold.1 ?_, hold.2⟩
         rw [hasRouter_iff] at hr ⊢
         obtain ⟨y, hy, hyid⟩ := hr
         exact ⟨y, hsub.subset hy, hyid⟩
+    · intro d hd he
+      dsimp only at hd
+      rcases List.mem_append.1 hd with hd | hd
+      · exact hasRouter_mono s _ hsub d.id (h.noRouterAfterErr d hd he)
+      · simp only [List.mem_singleton] at hd
+        subst hd
+        dsimp only at he ⊢
+        apply hasRouter_false_of
+        intro y hy
+        dsimp only at hy
+        rw [he] at hy
+        simp at hy
+        exact hy.2
+    · intro id' d hd
+      by_cases hid : id' = id
+      · subst hid
+        rw [hdeq, List.dropLast_concat] at hd
+        exact noErr_of_hasRouter h.noRouterAfterErr id' hhas d hd
+      · rw [hdne id' hid] at hd
+        exact h.errLast id' d hd
 
 theorem inv_cancelAll (s : State) (h : Inv s) : Inv (cancelAll s) := by
-  unfold cancelAll
-  have hsub : List.Sublist (s.routers.filter (·.streaming)) s.routers := List.filter_sublist
   refine { routerRegistered := ?_, registeredNodup := h.registeredNodup, routersNodup := ?_,
            deliveredToRegistrant := ?_, nonStreaming := ?_, queue := h.queue,
-           pushedNodup := h.pushedNodup, sentSub := h.sentSub, heldLast := h.heldLast }
+           pushedNodup := h.pushedNodup, sentSub := h.sentSub, heldLast := h.heldLast,
+           noRouterAfterErr := fun _ _ _ => rfl, errLast := ?_ }
   · intro y hy
-    exact h.routerRegistered y (hsub.subset hy)
-  · exact (hsub.map _).nodup h.routersNodup
+    cases hy
+  · exact List.nodup_nil
   · intro d hd
-    dsimp only at hd
     rcases List.mem_append.1 hd with hd | hd
     · exact h.deliveredToRegistrant d hd
     · obtain ⟨x, hx, rfl⟩ := List.mem_map.1 hd
       exact ⟨x.streaming, h.routerRegistered x hx⟩
   · intro id c hc
     have hold := h.nonStreaming id c hc
-    have hno : hasRouter { s with deliveries := s.deliveries ++ s.routers.map (fun x => (⟨x.id, x.call, .err 0⟩ : Delivery)), routers := s.routers.filter (·.streaming) } id = false := by
-      cases hr : hasRouter { s with deliveries := s.deliveries ++ s.routers.map (fun x => (⟨x.id, x.call, .err 0⟩ : Delivery)), routers := s.routers.filter (·.streaming) } id with
-      | false => rfl
-      | true =>
-        rw [hasRouter_iff] at hr
-        obtain ⟨y, hy, hyid⟩ := hr
-        dsimp only at hy
-        obtain ⟨hy1, hy2⟩ := List.mem_filter.1 hy
-        have hreg := h.routerRegistered y hy1
-        rw [hyid] at hreg
-        have := (reg_unique h.registeredNodup hreg hc).2
-        rw [this] at hy2; cases hy2
-    refine ⟨fun hr => (by rw [hno] at hr; cases hr), ?_⟩
-    have hlen : (deliveriesOf { s with deliveries := s.deliveries ++ s.routers.map (fun x => (⟨x.id, x.call, .err 0⟩ : Delivery)), routers := s.routers.filter (·.streaming) } id).length
-        = (deliveriesOf s id).length + (s.routers.filter (fun x => x.id == id)).length := by
-      simp only [deliveriesOf, List.filter_append, List.length_append, List.filter_map, List.length_map]
-      rfl
-    rw [hlen]
+    refine ⟨fun hr => (by cases hr), ?_⟩
+    rw [deliveriesOf_cancelAll, List.length_append, List.length_map]
     cases hr : hasRouter s id with
     | true =>
       rw [hold.1 hr]
       have := filter_id_length_le_one s.routers id h.routersNodup
       simpa using this
     | false =>
-      have : s.routers.filter (fun x => x.id == id) = [] := by
+      rw [filter_id_nil_of_noRouter s id hr]; simpa using hold.2
+  · intro id d hd
+    rw [deliveriesOf_cancelAll] at hd
+    cases hr : hasRouter s id with
+    | false =>
+      rw [filter_id_nil_of_noRouter s id hr, List.map_nil, List.append_nil] at hd
+      exact h.errLast id d hd
+    | true =>
+      have hlen := filter_id_length_le_one s.routers id h.routersNodup
+      rcases hfl : s.routers.filter (fun x => x.id == id) with _ | ⟨y, _ | ⟨z, t⟩⟩
+      · rw [hfl, List.map_nil, List.append_nil] at hd
+        exact h.errLast id d hd
+      · rw [hfl, List.map_cons, List.map_nil, List.dropLast_concat] at hd
+        exact noErr_of_hasRouter h.noRouterAfterErr id hr d hd
+      · rw [hfl] at hlen
+        simp at hlen
+
+theorem deliveriesOf_cancelWritten (s : State) (id : MsgId) :
+    deliveriesOf (cancelWritten s) id
+      = deliveriesOf s id ++ ((s.routers.filter (fun x => x.id == id)).filter (fun x => s.sent.contains x.id)).map
+          (fun x => (⟨x.id, x.call, .err 0⟩ : Delivery)) := by
+  simp only [cancelWritten, deliveriesOf, List.filter_append, List.filter_map, List.filter_filter]
+  congr 3
+  funext a
+  exact Bool.and_comm _ _
+
+/-- `cancelPendingMsgs(true)`: the routers of written requests are answered with one error each and deleted;
+    the routers that are kept get no delivery -/
+theorem inv_cancelWritten (s : State) (h : Inv s) : Inv (cancelWritten s) := by
+  have hsub : (cancelWritten s).routers.Sublist s.routers := List.filter_sublist
+  have hFlen : ∀ id, ((s.routers.filter (fun x => x.id == id)).filter (fun x => s.sent.contains x.id)).length ≤ 1 :=
+    fun id => Nat.le_trans (List.length_filter_le _ _) (filter_id_length_le_one s.routers id h.routersNodup)
+  refine { routerRegistered := ?_, registeredNodup := h.registeredNodup, routersNodup := ?_,
+           deliveredToRegistrant := ?_, nonStreaming := ?_, queue := h.queue,
+           pushedNodup := h.pushedNodup, sentSub := h.sentSub, heldLast := h.heldLast,
+           noRouterAfterErr := ?_, errLast := ?_ }
+  · intro y hy
+    exact h.routerRegistered y (hsub.subset hy)
+  · exact (hsub.map _).nodup h.routersNodup
+  · intro d hd
+    rcases List.mem_append.1 hd with hd | hd
+    · exact h.deliveredToRegistrant d hd
+    · obtain ⟨x, hx, rfl⟩ := List.mem_map.1 hd
+      exact ⟨x.streaming, h.routerRegistered x (List.mem_filter.1 hx).1⟩
+  · intro id c hc
+    have hold := h.nonStreaming id c hc
+    constructor
+    · -- a router that is kept belongs to a request that was not written: it gets no delivery
+      intro hr
+      rw [hasRouter_iff] at hr
+      obtain ⟨y, hy, hyid⟩ := hr
+      obtain ⟨hy1, hy2⟩ := List.mem_filter.1 hy
+      have hF : (s.routers.filter (fun x => x.id == id)).filter (fun x => s.sent.contains x.id) = [] := by
         rw [List.filter_eq_nil_iff]
-        intro x hx hxid
-        have : hasRouter s id = true := (hasRouter_iff s id).2 ⟨x, hx, by simpa using hxid⟩
-        rw [hr] at this; cases this
-      rw [this]; simpa using hold.2
+        intro z hz hzs
+        have hzid : z.id = id := by simpa using (List.mem_filter.1 hz).2
+        rw [hzid, ← hyid] at hzs
+        rw [hzs] at hy2
+        cases hy2
+      rw [deliveriesOf_cancelWritten, hF, List.map_nil, List.append_nil]
+      exact hold.1 ((hasRouter_iff s id).2 ⟨y, hy1, hyid⟩)
+    · rw [deliveriesOf_cancelWritten, List.length_append, List.length_map]
+      cases hr : hasRouter s id with
+      | true =>
+        rw [hold.1 hr]
+        simpa using hFlen id
+      | false =>
+        rw [filter_id_nil_of_noRouter s id hr]; simpa using hold.2
+  · intro d hd he
+    rcases List.mem_append.1 hd with hd | hd
+    · exact hasRouter_mono s _ hsub d.id (h.noRouterAfterErr d hd he)
+    · -- the answered request was written, the routers that are kept are of requests that were not
+      obtain ⟨x, hx, rfl⟩ := List.mem_map.1 hd
+      apply hasRouter_false_of
+      intro y hy hyx
+      have h1 := (List.mem_filter.1 hx).2
+      have h2 := (List.mem_filter.1 hy).2
+      dsimp only at hyx h1 h2
+      rw [hyx, h1] at h2
+      cases h2
+  · intro id d hd
+    rw [deliveriesOf_cancelWritten] at hd
+    rcases hfl : (s.routers.filter (fun x => x.id == id)).filter (fun x => s.sent.contains x.id) with _ | ⟨y, _ | ⟨z, t⟩⟩
+    · rw [hfl, List.map_nil, List.append_nil] at hd
+      exact h.errLast id d hd
+    · rw [hfl, List.map_cons, List.map_nil, List.dropLast_concat] at hd
+      have hy : y ∈ (s.routers.filter (fun x => x.id == id)).filter (fun x => s.sent.contains x.id) := by
+        rw [hfl]; exact List.mem_singleton.2 rfl
+      have hy' := List.mem_filter.1 (List.mem_filter.1 hy).1
+      have hr : hasRouter s id = true := (hasRouter_iff s id).2 ⟨y, hy'.1, by simpa using hy'.2⟩
+      exact noErr_of_hasRouter h.noRouterAfterErr id hr d hd
+    · have hlen := hFlen id
+      rw [hfl] at hlen
+      simp at hlen
 
 theorem inv_release (s : State) (h : Inv s) : Inv { s with held := none } :=
   { routerRegistered := h.routerRegistered, registeredNodup := h.registeredNodup,
     routersNodup := h.routersNodup, deliveredToRegistrant := h.deliveredToRegistrant,
     nonStreaming := h.nonStreaming, queue := h.queue, pushedNodup := h.pushedNodup,
-    sentSub := h.sentSub, heldLast := fun _ hh => by cases hh }
+    sentSub := h.sentSub, heldLast := fun _ hh => (by cases hh),
+    noRouterAfterErr := h.noRouterAfterErr, errLast := h.errLast }
 
 theorem inv_written (s : State) (id : MsgId) (h : Inv s) (hh : s.held = some id) :
     Inv { s with held := none, sent := s.sent ++ [id] } := by
@@ -201,14 +353,16 @@ theorem inv_written (s : State) (id : MsgId) (h : Inv s) (hh : s.held = some id)
     sentSub := by
       show (s.sent ++ [id]).Sublist s.popped
       rw [hp]; exact hsub.append (List.Sublist.refl _),
-    heldLast := fun _ hh => by cases hh }
+    heldLast := fun _ hh => (by cases hh),
+    noRouterAfterErr := h.noRouterAfterErr, errLast := h.errLast }
 
 /-! ### the invariant is inductive -/
 
 theorem inv_init : Inv init := by
   refine { routerRegistered := ?_, registeredNodup := ?_, routersNodup := ?_,
            deliveredToRegistrant := ?_, nonStreaming := ?_, queue := ?_,
-           pushedNodup := ?_, sentSub := ?_, heldLast := ?_ } <;> simp [init]
+           pushedNodup := ?_, sentSub := ?_, heldLast := ?_,
+           noRouterAfterErr := ?_, errLast := ?_ } <;> simp [init, deliveriesOf]
 
 theorem inv_step (s s' : State) (l : Label) (h : Inv s) (hs : step s l = some s') : Inv s' := by
   cases l with
@@ -233,7 +387,8 @@ theorem inv_step (s s' : State) (l : Label) (h : Inv s) (hs : step s l = some s'
         exact hfresh' _ _ hst
       refine { routerRegistered := ?_, registeredNodup := ?_, routersNodup := ?_,
                deliveredToRegistrant := ?_, nonStreaming := ?_, queue := h.queue,
-               pushedNodup := h.pushedNodup, sentSub := h.sentSub, heldLast := h.heldLast }
+               pushedNodup := h.pushedNodup, sentSub := h.sentSub, heldLast := h.heldLast,
+               noRouterAfterErr := ?_, errLast := h.errLast }
       · intro x hx
         dsimp only at hx ⊢
         rcases List.mem_cons.1 hx with rfl | hx
@@ -280,6 +435,21 @@ theorem inv_step (s s' : State) (l : Label) (h : Inv s) (hs : step s l = some s'
             · exact ⟨y, hy, hyid⟩
           · simp only [List.mem_singleton, Prod.mk.injEq] at hc
             exact absurd hc.1 hid
+      · -- a fresh id has no delivery, so the new router is not one of an id answered with an error
+        intro d hd he
+        have hold := h.noRouterAfterErr d hd he
+        cases hr : hasRouter { s with routers := ⟨id, c, streaming⟩ :: s.routers, registered := s.registered ++ [(id, c, streaming)] } d.id with
+        | false => rfl
+        | true =>
+          rw [hasRouter_iff] at hr
+          obtain ⟨y, hy, hyid⟩ := hr
+          dsimp only at hy
+          rcases List.mem_cons.1 hy with rfl | hy
+          · obtain ⟨st, hst⟩ := h.deliveredToRegistrant d hd
+            rw [← hyid] at hst
+            exact absurd hst (hfresh' _ _)
+          · have : hasRouter s d.id = true := (hasRouter_iff s d.id).2 ⟨y, hy, hyid⟩
+            rw [hold] at this; cases this
   | handoff id =>
     simp only [step] at hs
     split at hs
@@ -289,7 +459,8 @@ theorem inv_step (s s' : State) (l : Label) (h : Inv s) (hs : step s l = some s'
       refine { routerRegistered := h.routerRegistered, registeredNodup := h.registeredNodup,
                routersNodup := h.routersNodup, deliveredToRegistrant := h.deliveredToRegistrant,
                nonStreaming := h.nonStreaming, queue := ?_,
-               pushedNodup := ?_, sentSub := h.sentSub, heldLast := h.heldLast }
+               pushedNodup := ?_, sentSub := h.sentSub, heldLast := h.heldLast,
+               noRouterAfterErr := h.noRouterAfterErr, errLast := h.errLast }
       · dsimp only
         rw [h.queue, List.append_assoc]
       · dsimp only
@@ -312,7 +483,8 @@ theorem inv_step (s s' : State) (l : Label) (h : Inv s) (hs : step s l = some s'
       refine { routerRegistered := h.routerRegistered, registeredNodup := h.registeredNodup,
                routersNodup := h.routersNodup, deliveredToRegistrant := h.deliveredToRegistrant,
                nonStreaming := h.nonStreaming, queue := ?_,
-               pushedNodup := h.pushedNodup, sentSub := ?_, heldLast := ?_ }
+               pushedNodup := h.pushedNodup, sentSub := ?_, heldLast := ?_,
+               noRouterAfterErr := h.noRouterAfterErr, errLast := h.errLast }
       · dsimp only
         rw [h.queue, hq, List.append_assoc]; rfl
       · exact List.sublist_append_of_sublist_left h.sentSub
@@ -352,13 +524,19 @@ theorem inv_step (s s' : State) (l : Label) (h : Inv s) (hs : step s l = some s'
     simp only [step, Option.some.injEq] at hs
     subst hs
     exact inv_cancelAll s h
+  | replaceCancel =>
+    simp only [step, Option.some.injEq] at hs
+    subst hs
+    exact inv_cancelWritten s h
   | deleteRouter id =>
     simp only [step, Option.some.injEq] at hs
     subst hs
     have hsub : List.Sublist (s.routers.filter (fun y => y.id != id)) s.routers := List.filter_sublist
     refine { routerRegistered := ?_, registeredNodup := h.registeredNodup, routersNodup := ?_,
              deliveredToRegistrant := h.deliveredToRegistrant, nonStreaming := ?_, queue := h.queue,
-             pushedNodup := h.pushedNodup, sentSub := h.sentSub, heldLast := h.heldLast }
+             pushedNodup := h.pushedNodup, sentSub := h.sentSub, heldLast := h.heldLast,
+             noRouterAfterErr := fun d hd he => hasRouter_mono s _ hsub d.id (h.noRouterAfterErr d hd he),
+             errLast := h.errLast }
     · intro y hy
       exact h.routerRegistered y (hsub.subset hy)
     · exact (hsub.map _).nodup h.routersNodup
@@ -440,16 +618,91 @@ theorem deleteRouter_removes (s s' : State) (id : MsgId) (hs : step s (.deleteRo
     exact absurd hyid this
 
 /-- **C07: when the connection breaks every pending request is completed with an error** (and
-    non-streaming ones lose their router) -/
+    every router is removed: no further reply can arrive on a stream that is down) -/
 theorem streamDown_answers_all (s s' : State) (hs : step s .streamDown = some s') :
-    (∀ x ∈ s.routers, ⟨x.id, x.call, .err 0⟩ ∈ s'.deliveries) ∧ (∀ x ∈ s'.routers, x.streaming = true) := by
+    (∀ x ∈ s.routers, ⟨x.id, x.call, .err 0⟩ ∈ s'.deliveries) ∧ s'.routers = [] := by
   simp only [step, Option.some.injEq] at hs
   subst hs
   constructor
   · intro x hx
     exact List.mem_append_right _ (List.mem_map.2 ⟨x, hx, rfl⟩)
+  · rfl
+
+/-- **C07 / C11: an error is the last thing delivered for a request**, streaming or not: whatever was
+    delivered for the request before an error delivery was not an error, and nothing follows it -/
+theorem error_is_last (s : State) (h : Reachable s) (id : MsgId) (pre post : List Delivery) (d : Delivery)
+    (hd : deliveriesOf s id = pre ++ d :: post) (he : d.resp.isErr = true) : post = [] := by
+  cases post with
+  | nil => rfl
+  | cons p ps =>
+    have hmem : d ∈ (deliveriesOf s id).dropLast := by
+      rw [hd, List.dropLast_append_of_ne_nil (by simp)]
+      simp [List.dropLast]
+    have := (inv_reachable s h).errLast id d hmem
+    rw [he] at this; cases this
+
+/-- (the first half of the sentence above) whatever was delivered for a request before an error delivery
+    was not an error -/
+theorem no_error_before_error (s : State) (h : Reachable s) (id : MsgId) (pre post : List Delivery) (d : Delivery)
+    (hd : deliveriesOf s id = pre ++ d :: post) : ∀ d' ∈ pre, d'.resp.isErr = false := by
+  intro d' hd'
+  apply (inv_reachable s h).errLast id d'
+  rw [hd, List.dropLast_append_of_ne_nil (by simp)]
+  exact List.mem_append_left _ hd'
+
+/-- a list in which only the last element may be an error holds at most one error -/
+theorem filter_err_length_le_one (l : List Delivery) (h : ∀ d ∈ l.dropLast, d.resp.isErr = false) :
+    (l.filter (fun d => d.resp.isErr)).length ≤ 1 := by
+  rcases List.eq_nil_or_concat l with rfl | ⟨l', a, rfl⟩
+  · simp
+  · rw [List.concat_eq_append] at h ⊢
+    rw [List.dropLast_concat] at h
+    have hnil : l'.filter (fun d => d.resp.isErr) = [] := by
+      rw [List.filter_eq_nil_iff]
+      intro d hd
+      simp [h d hd]
+    rw [List.filter_append, hnil, List.nil_append]
+    exact List.length_filter_le _ [a]
+
+/-- **C07: a failing node is reported once per request**: at most one error delivery per message id -/
+theorem at_most_one_error (s : State) (h : Reachable s) (id : MsgId) :
+    ((deliveriesOf s id).filter (fun d => d.resp.isErr)).length ≤ 1 :=
+  filter_err_length_le_one _ ((inv_reachable s h).errLast id)
+
+/-- **C18: a request that has been answered with an error keeps no router**, streaming or not -/
+theorem no_router_after_error (s : State) (h : Reachable s) (d : Delivery) (hd : d ∈ s.deliveries)
+    (he : d.resp.isErr = true) : hasRouter s d.id = false :=
+  (inv_reachable s h).noRouterAfterErr d hd he
+
+/-- Why the deletion on error matters: with a router that survives an error (the pinned code) the same
+    request is answered with two errors — the handler's and the stream-down one.  Stated on the model's
+    transition relation with the old `route` / `cancelAll` inlined. -/
+theorem pinned_streaming_router_reports_twice :
+    let s1 : State := { routers := [⟨1, 7, true⟩], registered := [(1, 7, true)] }
+    -- old routeResponse: a streaming router is kept, also on an error
+    let s2 : State := { s1 with deliveries := s1.deliveries ++ [⟨1, 7, .err 3⟩] }
+    -- old cancelPendingMsgs: streaming routers are answered and kept
+    let s3 : State := { s2 with deliveries := s2.deliveries ++ s2.routers.map (fun x => ⟨x.id, x.call, .err 0⟩) }
+    ((deliveriesOf s3 1).filter (fun d => d.resp.isErr)).length = 2 := by
+  decide
+
+/-- **C18 / C07: whoever replaces a stream answers what was written to it**: after `replaceCancel` every
+    request that had been written to a stream and was still pending has been answered with an error, no
+    written request keeps a router, and the requests that have not been written yet keep theirs -/
+theorem replaceCancel_answers_written (s s' : State) (hs : step s .replaceCancel = some s') :
+    (∀ x ∈ s.routers, s.sent.contains x.id = true → ⟨x.id, x.call, .err 0⟩ ∈ s'.deliveries) ∧
+    (∀ x ∈ s'.routers, s.sent.contains x.id = false) ∧
+    (∀ x ∈ s.routers, s.sent.contains x.id = false → x ∈ s'.routers) := by
+  simp only [step, Option.some.injEq] at hs
+  subst hs
+  refine ⟨?_, ?_, ?_⟩
+  · intro x hx hw
+    exact List.mem_append_right _ (List.mem_map.2 ⟨x, List.mem_filter.2 ⟨hx, hw⟩, rfl⟩)
   · intro x hx
-    exact (List.mem_filter.1 hx).2
+    have := (List.mem_filter.1 hx).2
+    simpa using this
+  · intro x hx hw
+    exact List.mem_filter.2 ⟨hx, by rw [hw]; rfl⟩
 
 /-- **C03 (client half): requests are written to the stream in the order in which their hand-offs
     completed**; each at most once -/
@@ -463,6 +716,12 @@ theorem sent_in_handoff_order (s : State) (h : Reachable s) : s.sent.Sublist s.p
 theorem popped_prefix_of_pushed (s : State) (h : Reachable s) : s.popped <+: s.pushed := by
   rw [(inv_reachable s h).queue]
   exact List.prefix_append _ _
+
+/-- non-vacuity: a streaming request whose handler fails and whose connection then breaks is answered once -/
+example : ∃ s, exec init [.register 1 7 true, .handoff 1, .pop, .sendOk false, .recvReply 1 (.reply 4),
+      .recvReply 1 (.err 3), .streamDown, .recvReply 1 (.reply 5)] = some s ∧
+    s.deliveries = [⟨1, 7, .reply 4⟩, ⟨1, 7, .err 3⟩] ∧ s.routers = [] := by
+  refine ⟨_, rfl, ?_, ?_⟩ <;> decide
 
 /-- non-vacuity: a concrete execution with a late reply after a cancellation of the stream -/
 example : ∃ s, exec init [.register 1 7 false, .handoff 1, .pop, .sendOk false, .streamDown, .recvReply 1 (.reply 5)] = some s ∧
